@@ -268,6 +268,17 @@ def generate(job):
         "ops": ops,
         "faults": [],
     }
+    if kind == "history" and card.get("_kind", job.get("card_kind")) in (None, "S3") and rk.chance(0.25):
+        # a parameter that is DEFINED through another one (constrains: from_trans): the value the model sees is a
+        # transform of the stored variable
+        res = sorted(n for n, v in card["particle"].items() if isinstance(v, dict) and n.startswith("R_") and "width" in v)
+        if len(res) >= 2:
+            card = copy.deepcopy(card)
+            card.setdefault("constrains", {})["from_trans"] = {res[1] + "_width": {"x": res[0] + "_width", "model": "linear", "k": 2.0, "b": 0.1}}
+            spec["card"] = card
+            # directed: the transformed parameter is overridden inside a variable-manager block
+            blk = {"k": "vm.temp_params", "p": [[0, 0.5]], "d": "A", "body": [{"k": "eval", "d": "A"}], "names": [res[1] + "_width"]}
+            spec["ops"] = spec["ops"][:2] + [blk] + spec["ops"][2:]
     if kind == "history" and rk.chance(0.15):
         # the state a Newton-CG / trust-* fit (or an aborted fit) leaves behind: bounds still installed in the
         # variable manager (fit_scipy removes them only on the BFGS/CG path)
@@ -385,8 +396,21 @@ class Session:
         np = self.np
         bad = []
         if S0["params"] != S1["params"]:
-            diff = [k for k in S0["params"] if S0["params"][k] != S1["params"].get(k)]
-            bad.append(("params", "parameters differ after %s: %s" % (opk, [(k, S0["params"][k], S1["params"].get(k)) for k in diff[:4]])))
+            # parameters tied through a pre_trans / from_trans transform are restored through the inverse
+            # transform: equal up to rounding (a few ulp), everything else bit for bit
+            loose = set()
+            for kk, vv in ((self.spec["card"].get("constrains") or {}).get("from_trans") or {}).items():
+                loose.add(kk)
+                xs = vv.get("x")
+                loose.update([xs] if isinstance(xs, str) else list(xs or []))
+            def same(k):
+                a, b = S0["params"][k], S1["params"].get(k)
+                if b is None:
+                    return False
+                return a == b or (k in loose and abs(a - b) <= 1e-12 * max(1.0, abs(a)))
+            diff = [k for k in S0["params"] if not same(k)]
+            if diff:
+              bad.append(("params", "parameters differ after %s: %s" % (opk, [(k, S0["params"][k], S1["params"].get(k)) for k in diff[:4]])))
         if S0["chains"] != S1["chains"]:
             bad.append(("chains", "active chains %s -> %s after %s" % (S0["chains"], S1["chains"], opk)))
         if S0["config"] != S1["config"]:
@@ -408,11 +432,25 @@ class Session:
         return bad
 
     # ---- argument resolution -----------------------------------------------------------
-    def _params(self, plist):
-        pool = self.free or self.names
+    def _params(self, plist, names=None):
         out = {}
+        cur = None
+        if names:
+            with self.tr.pause():
+                cur = {k: float(v) for k, v in self.amp.get_params().items()}
+            return {n: cur[n] * (1.0 + 0.1 * float(plist[0][1])) for n in names if n in cur}
         for idx, val in plist:
-            out[pool[idx % len(pool)]] = float(val)
+            # mostly free parameters; every third entry may name ANY parameter, fixed ones included (a scan of a
+            # fixed mass, the full parameter dictionary of another fit result)
+            pool = self.names if (idx // 7) % 3 == 0 else (self.free or self.names)
+            n = pool[idx % len(pool)]
+            if n.endswith("_mass") or n.endswith("_width"):
+                if cur is None:
+                    with self.tr.pause():
+                        cur = {k: float(v) for k, v in self.amp.get_params().items()}
+                out[n] = cur[n] * (1.0 + 0.03 * float(val))
+            else:
+                out[n] = float(val)
         return out
 
     def _res(self, rl):
@@ -508,7 +546,7 @@ class Session:
         k = op["k"]
         p = op.get("p") or [[0, 0.5]]
         if k == "amp.temp_params":
-            return self.amp.temp_params(self._params(p))
+            return self.amp.temp_params(self._params(p, op.get("names")))
         if k == "amp.temp_params_list":
             # the temporary point given as the list of all free values (set_params accepts either form)
             vals = [float(v) for v in self.vm.get_all_val()]
@@ -517,7 +555,7 @@ class Session:
                     vals[idx % len(vals)] = float(val)
             return self.amp.temp_params(vals)
         if k == "vm.temp_params":
-            return self.vm.temp_params(self._params(p))
+            return self.vm.temp_params(self._params(p, op.get("names")))
         if k == "amp.mask_params":
             return self.amp.mask_params(self._params(p))
         if k == "vm.mask_params":
